@@ -21,3 +21,20 @@ fn table_distinct_nonzero() {
     let mut rng = ChaCha8Rng::seed_from_u64(SEED);
     assert_eq!(rng.next_u64(), t.pieces[0][0][0]);
 }
+
+/// [C05] R13 models the static as "one run of ZTable::init": every expression that can initialise it anywhere in the
+/// defining file (collected mechanically at splice time) must produce that same table
+#[test]
+fn table_initialisers_agree() {
+    //@STATIC-INITS
+    assert!(!inits.is_empty(), "no initialisation site of TABLE found");
+    // ZTable::init asserts that the cell is still empty: run the candidates before anything touches the cell
+    let tables: Vec<(&str, ZTable)> = inits.iter().map(|(n, f)| (*n, f())).collect();
+    let mut rng = ChaCha8Rng::seed_from_u64(SEED);
+    let first = rng.next_u64();
+    for (n, t) in tables.iter() {
+        assert!(t.pieces[0][0][0] == first, "TABLE may be initialised by `{n}`, which is not the seeded table of ZTable::init (first word {:#x})", t.pieces[0][0][0]);
+        assert!(t.pieces == tables[0].1.pieces && t.castling == tables[0].1.castling && t.en_passant == tables[0].1.en_passant
+            && t.white_turn == tables[0].1.white_turn, "TABLE may be initialised by `{n}`, whose table differs from `{}`", tables[0].0);
+    }
+}
